@@ -1,4 +1,4 @@
-import NbioVerif.Model.Rfc6455
+import NbioVerif.Lemmas.RfcM
 import NbioVerif.Generated.WsFacts
 /-! Regenerated facts (DESIGN §2.4b): the tables `hws facts` tabulates from the real `validFrame` / `validCloseCode`
     on every run are exactly the model's functions, and those are exactly the RFC's predicates.
@@ -34,8 +34,8 @@ theorem validCloseCode_table (c : Nat) : validCloseCode c = inIntervals Gen.vali
   omega
 
 /-- the model's close-code predicate is RFC 6455 §7.4.1/§7.4.2 -/
-theorem validCloseCode_rfc (c : Nat) : validCloseCode c = Rfc.closeCodeOk c := by
-  simp only [validCloseCode, Rfc.closeCodeOk]
+theorem validCloseCode_rfc (c : Nat) : validCloseCode c = RfcM.closeCodeOk c := by
+  simp only [validCloseCode, RfcM.closeCodeOk]
   rw [Bool.eq_iff_iff]
   simp only [Bool.or_eq_true, Bool.and_eq_true, decide_eq_true_eq]
   omega
